@@ -8,6 +8,7 @@ import (
 	"context"
 	"fmt"
 	"math"
+	"math/big"
 	"reflect"
 	"strconv"
 	"strings"
@@ -854,7 +855,7 @@ func lexOptAnswer(lit []byte) (ans string) {
 		return "rejected-without-lexer-error"
 	}
 	if shape == "err" {
-		return "lexAccepted-despite-lexer-error"
+		return "accepted-despite-lexer-error"
 	}
 	res, err := parser.ResultFromAST(root, true, h)
 	if err != nil {
@@ -899,7 +900,7 @@ func lexDfltAnswer(lit []byte) (ans string) {
 		return "rejected-without-lexer-error"
 	}
 	if shape == "err" {
-		return "lexAccepted-despite-lexer-error"
+		return "accepted-despite-lexer-error"
 	}
 	res, ok := files[0].(linker.Result)
 	if !ok {
@@ -909,8 +910,122 @@ func lexDfltAnswer(lit []byte) (ans string) {
 	return "d:" + Hex([]byte(dv))
 }
 
+// lexSignedShape lexes "option x = <lit>;" where <lit> may be a numeric literal with a leading
+// `-` (and trivia after it): "lit" = exactly [option x = (-)? NUMBER ;] without errors.
+func lexSignedShape(lit []byte) string {
+	c := &lexCollector{lenient: true}
+	res := parser.VerifLex(append(append([]byte("option x = "), lit...), ';'), c.handler())
+	if len(c.errs) > 0 {
+		return "err"
+	}
+	t := res.Toks
+	if len(t) == 6 && t[3].Kind == "r" && t[3].Rune == '-' {
+		t = append(append([]parser.VerifTok{}, t[:3]...), t[4:]...)
+	}
+	if len(t) != 5 || (t[3].Kind != "i" && t[3].Kind != "f") || t[2].Kind != "r" || t[2].Rune != '=' || t[4].Kind != "r" || t[4].Rune != ';' {
+		return "other"
+	}
+	return "lit"
+}
+
+func lexCompile(src string) (linker.Files, error) {
+	comp := protocompile.Compiler{
+		Resolver: protocompile.WithStandardImports(&protocompile.SourceResolver{
+			Accessor: protocompile.SourceAccessorFromMap(map[string]string{"f.proto": src})}),
+	}
+	return comp.Compile(context.Background(), "f.proto")
+}
+
+// lexSignedAnswer: a (possibly negated) numeric literal through the parser / compiler in the
+// context ctx: opt | dflt:<type> | copt:<type> | mlit:<type> | enum | tag | res | eres.
+func lexSignedAnswer(ctx string, lit []byte) (ans string) {
+	defer lexCatchPanic(&ans)
+	if lexSignedShape(lit) == "other" {
+		return "unmodelled"
+	}
+	L := string(lit)
+	kind, typ, _ := strings.Cut(ctx, ":")
+	switch kind {
+	case "opt":
+		h := reporter.NewHandler(nil)
+		root, err := parser.Parse("f.proto", bytes.NewReader([]byte("option x = "+L+";")), h)
+		if err != nil {
+			return "rej"
+		}
+		res, err := parser.ResultFromAST(root, true, h)
+		if err != nil {
+			return "rej"
+		}
+		opts := res.FileDescriptorProto().GetOptions().GetUninterpretedOption()
+		if len(opts) != 1 {
+			return "no-option"
+		}
+		o := opts[0]
+		switch {
+		case o.PositiveIntValue != nil:
+			return fmt.Sprintf("p:%d", o.GetPositiveIntValue())
+		case o.NegativeIntValue != nil:
+			return fmt.Sprintf("n:%d", o.GetNegativeIntValue())
+		case o.DoubleValue != nil:
+			return fmt.Sprintf("d:%016x", math.Float64bits(o.GetDoubleValue()))
+		}
+		return "other-value"
+	case "dflt":
+		files, err := lexCompile("syntax = \"proto2\";\nmessage M { optional " + typ + " f = 1 [default = " + L + "]; }\n")
+		if err != nil {
+			return "rej"
+		}
+		if typ == "float" || typ == "double" {
+			return "acc"
+		}
+		return "acc:" + files[0].(linker.Result).FileDescriptorProto().GetMessageType()[0].GetField()[0].GetDefaultValue()
+	case "copt":
+		_, err := lexCompile("syntax = \"proto2\";\nimport \"google/protobuf/descriptor.proto\";\n" +
+			"extend google.protobuf.FileOptions { optional " + typ + " o = 50000; }\noption (o) = " + L + ";\n")
+		if err != nil {
+			return "rej"
+		}
+		return "acc"
+	case "mlit":
+		_, err := lexCompile("syntax = \"proto2\";\nimport \"google/protobuf/descriptor.proto\";\nmessage T { optional " + typ + " v = 1; }\n" +
+			"extend google.protobuf.FileOptions { optional T o = 50000; }\noption (o) = { v: " + L + " };\n")
+		if err != nil {
+			return "rej"
+		}
+		return "acc"
+	case "enum":
+		files, err := lexCompile("syntax = \"proto2\";\nenum E { A = " + L + "; }\n")
+		if err != nil {
+			return "rej"
+		}
+		return fmt.Sprintf("acc:%d", files[0].(linker.Result).FileDescriptorProto().GetEnumType()[0].GetValue()[0].GetNumber())
+	case "tag":
+		_, err := lexCompile("syntax = \"proto2\";\nmessage M { optional int32 f = " + L + "; }\n")
+		if err != nil {
+			return "rej"
+		}
+		return "acc"
+	case "res":
+		_, err := lexCompile("syntax = \"proto2\";\nmessage M { reserved " + L + " to max; }\n")
+		if err != nil {
+			return "rej"
+		}
+		return "acc"
+	case "eres":
+		_, err := lexCompile("syntax = \"proto2\";\nenum E { reserved " + L + "; A = 12345; }\n")
+		if err != nil {
+			return "rej"
+		}
+		return "acc"
+	}
+	return "bad-op"
+}
+
 func (lexLiteralEngine) Exec(op string) string {
 	w := strings.Fields(op)
+	if len(w) == 3 && w[0] == "snum" {
+		return lexSignedAnswer(w[1], UnHex(w[2]))
+	}
 	if len(w) != 2 {
 		return "bad-op"
 	}
@@ -930,6 +1045,11 @@ func (lexLiteralEngine) Trivial(op, ans string) bool { return strings.HasSuffix(
 
 func (lexLiteralEngine) Class(op, ans string) string {
 	w := strings.Fields(op)
+	if w[0] == "snum" {
+		k, _, _ := strings.Cut(w[1], ":")
+		a, _, _ := strings.Cut(ans, ":")
+		return "snum:" + k + ":" + a
+	}
 	k := "num"
 	if b := UnHex(w[1]); len(b) > 0 && (b[0] == '"' || b[0] == '\'') {
 		k = "str"
@@ -1045,6 +1165,14 @@ func (lexLiteralEngine) Gen(r *Rand, tier string) [][]string {
 		all([]byte(s))
 		if s[0] >= '0' && s[0] <= '9' {
 			add("dflt", []byte(s))
+		}
+	}
+	// signed boundary family: every spelling of every boundary value, with and without `-`, through
+	// the parser / compiler wherever the int-vs-float node decision or a range check matters
+	for _, o := range lexSignedBoundaryOps(tier) {
+		if !seen[o] {
+			seen[o] = true
+			ops = append(ops, o)
 		}
 	}
 	cnt := 1500
@@ -1313,6 +1441,56 @@ func lexErrorShapes() []string {
 		"message m { optional int32 x = 1 [default = {]; }", "option x = { a: [ }; ", "option x = { a: [1, ] };", "option x = { [a.b/c]: 1 };", "option x = { [a.b/]: 1 };",
 		"message { }", "enum { }", "service { }", "message m { enum { } }", "rpc M(A) returns (B);", "message m { rpc x = 1; }", "syntax = ;", "edition = 2023;", "import weak public \"x\";",
 	}
+}
+
+// lexSignedBoundaryOps: the `snum` ops of the signed-boundary family.
+func lexSignedBoundaryOps(tier string) []string {
+	one := new(big.Int).SetInt64(1)
+	pow := func(k uint) *big.Int { return new(big.Int).Lsh(one, k) }
+	add := func(a *big.Int, d int64) *big.Int { return new(big.Int).Add(a, big.NewInt(d)) }
+	mags := []*big.Int{big.NewInt(0), big.NewInt(1), add(pow(31), -1), pow(31), add(pow(31), 1), add(pow(32), -1), pow(32), add(pow(32), 1),
+		add(pow(63), -1), pow(63), add(pow(63), 1), add(pow(64), -1), pow(64), add(pow(64), 1),
+		big.NewInt(18999), big.NewInt(19000), big.NewInt(19999), big.NewInt(20000), big.NewInt(536870911), big.NewInt(536870912)}
+	if tier == "thorough" {
+		for _, k := range []uint{7, 8, 15, 16, 24, 53, 62} {
+			mags = append(mags, add(pow(k), -1), pow(k), add(pow(k), 1))
+		}
+	}
+	spell := func(m *big.Int) []string {
+		return []string{m.Text(10), "0x" + m.Text(16), "0X" + strings.ToUpper(m.Text(16)), "0x" + strings.ToUpper(m.Text(16)), "0" + m.Text(8)}
+	}
+	signs := []string{"", "-"}
+	var lits []string
+	for _, m := range mags {
+		for _, sp := range spell(m) {
+			for _, sg := range signs {
+				lits = append(lits, sg+sp)
+			}
+		}
+	}
+	// trivia between the sign and the digits, at the int64 / int32 boundaries
+	for _, m := range []*big.Int{pow(63), add(pow(63), 1), pow(31), big.NewInt(0), add(pow(64), -1)} {
+		for _, tr := range []string{" ", "\t", "/*c*/", " /* c */ ", "\n", "// c\n"} {
+			lits = append(lits, "-"+tr+m.Text(10), "-"+tr+"0x"+m.Text(16))
+		}
+	}
+	// floats and oddities for contrast
+	lits = append(lits, "-1.0", "1e3", "-1e3", "-.5", "--1", "- -1", "-", "+1", "-inf", "-0.0", "-9223372036854775808.0", "-1f", "-08")
+	types := []string{"int32", "int64", "uint32", "uint64", "sint32", "sint64", "fixed32", "fixed64", "sfixed32", "sfixed64", "float", "double", "bool"}
+	ctxs := []string{"opt", "enum", "tag", "res", "eres"}
+	for _, t := range types {
+		ctxs = append(ctxs, "dflt:"+t)
+	}
+	for _, t := range []string{"int32", "int64", "uint32", "uint64", "sint64", "sfixed32", "double", "float", "bool"} {
+		ctxs = append(ctxs, "copt:"+t, "mlit:"+t)
+	}
+	var ops []string
+	for _, l := range lits {
+		for _, c := range ctxs {
+			ops = append(ops, "snum "+c+" "+Hex([]byte(l)))
+		}
+	}
+	return ops
 }
 
 // ---------------------------------------------------------------- engine "lextotal" (C12)
